@@ -74,6 +74,8 @@ type CrashSpec struct {
 	MID    string   `json:"mid"`
 	Msg    *MsgSpec `json:"msg,omitempty"` // ProcessInbound / AddOut
 	Unread bool     `json:"unread,omitempty"`
+	// Rejected: SetSent's second argument (the remote answered the proposal with a reject: it holds the message already)
+	Rejected bool `json:"rejected,omitempty"`
 	// Fsize > 0: RLIMIT_FSIZE (soft) is lowered to this many bytes for the duration of the
 	// operation, so that the kernel performs a genuine partial write at that file size and fails the
 	// retry with EFBIG (Go ignores SIGXFSZ).
@@ -142,7 +144,7 @@ func crashChild() int {
 	case "AddOut":
 		err = h.AddOut(msg)
 	case "SetSent":
-		h.SetSent(sp.MID, false)
+		h.SetSent(sp.MID, sp.Rejected)
 	case "SetUnread":
 		err = mailbox.SetUnread(msg, sp.Unread)
 	}
